@@ -30,6 +30,18 @@ CHECKS["C06"] = dict(
          "int(hexlify(b),16) as linear arithmetic; record sizes small (0..3 bytes), 64KiB+ records outside the claim; symrun + loader + z3 trusted.",
     ref="6/C06")
 
+CHECKS["C07"] = dict(
+    text="The real transit handshake code (startNegotiation/_dataReceived/_check_and_remove/connection_ready) is executed on inbound bytes = honest "
+         "prefix of every length + up to 3-4 arbitrary symbolic bytes, at every cut: z3 shows a connection reaches 'records' / is told go iff the "
+         "inbound bytes equal the expected handshake (receiver: + go), hangs up on the first deviation and fails its Deferred. The real "
+         "connect()/_connect/there_can_be_only_one/InboundConnectionFactory/_not_forever run with fake endpoints on a Clock over all bounded schedules "
+         "(establish/refuse/inbound/partial delivery/loss/timer) with symbolic per-contender handshake bytes: at most one go, only matching contenders "
+         "selected, losers closed, connect() never pending after 2*TIMEOUT.",
+    note="fake endpoints/listener/Clock; real HKDF with a concrete key (a party with another key = bytes deviating somewhere, solver-chosen); "
+         "<=3 outbound + relay + inbound contenders, schedules of 4 (quick) / 7 (thorough) steps + fair completion; honest sender assumed for the "
+         "receiver-side contender runs (at most one go).",
+    ref="6/C07")
+
 NOT_YET = {}
 
 NA = {}
